@@ -37,8 +37,26 @@ func c10(p *core.Program, r *core.Report) {
 	const r1 = "fallback-exact"
 	r.Rule(r1, "typestate of math/big.Float values in bigxy.OrientationIndex: precision 0 for a zero value, 53 after SetFloat64/NewFloat on an unset value, n after SetPrec(n), and for an unset receiver of Add/Sub/Mul the larger operand precision; bit-span domain: an input ordinate is a multiple of 2^-385 below 2^333 (the property's domain), a sum spans [min lo, max hi + 1], a product [lo1+lo2, hi1+hi2]; every Add/Sub/Mul on the determinant path has receiver precision >= the span of its exact result, so the fallback's sign is the exact sign", 7)
 	fn := mustFn(p, r, r1, "bigxy", "OrientationIndex")
+	exact := fn
 	if fn != nil {
-		bigPrec(p, r, r1, fn)
+		// the big.Float arithmetic may live in a helper of the package that OrientationIndex hands its three points to
+		usesBig := func(f *ssa.Function) bool {
+			for _, c := range eng.Calls(f) {
+				if o := eng.CalleeObj(c); o != nil && o.Pkg() != nil && o.Pkg().Path() == "math/big" && (o.Name() == "Mul" || o.Name() == "Sub") {
+					return true
+				}
+			}
+			return false
+		}
+		if !usesBig(fn) {
+			for _, c := range eng.Calls(fn) {
+				if h := eng.StaticCallee(c); h != nil && h.Pkg == fn.Pkg && len(h.Blocks) > 0 && usesBig(h) && sameArgs3(c, fn) {
+					exact = h
+				}
+			}
+		}
+		bigPrec(p, r, r1, exact)
+		exactSignRule(p, r, "exact-sign-not-rounded", exact)
 	}
 
 	const r2 = "filter-constant"
@@ -82,18 +100,35 @@ func c10(p *core.Program, r *core.Report) {
 		filterStructure(p, r, r3, ff)
 	}
 	if fn != nil {
-		// fallthrough condition in OrientationIndex: `index <= 1` returns the filter's answer
-		ok := false
-		for _, b := range fn.Blocks {
-			if c, okc := eng.EdgeCmp(b, 0); okc && c.Op == token.LEQ {
-				if call, isCall := c.X.(*ssa.Call); isCall && call.Call.StaticCallee() != nil && call.Call.StaticCallee().Name() == "orientationIndexFilter" {
-					if n, isC := eng.ConstInt(c.Y); isC && n == 1 {
-						ok = true
+		// cut-off by evaluation: with the filter's answer bound to -1, 0, 1 OrientationIndex returns it without touching
+		// math/big; bound to 2 (or any larger value) it reaches the exact arithmetic
+		bad := ""
+		for _, k := range []int64{-1, 0, 1, 2, 7} {
+			ev := &eng.ConstEval{Inline: func(f *ssa.Function) bool { return f.Pkg == fn.Pkg && f.Name() != "orientationIndexFilter" }}
+			ev.Override = func(f *ssa.Function, v ssa.Value, args []eng.CVal) (eng.CVal, bool) {
+				if c, ok := v.(*ssa.Call); ok && c.Call.StaticCallee() != nil && c.Call.StaticCallee().Name() == "orientationIndexFilter" {
+					return eng.IntV(k), true
+				}
+				return eng.CVal{}, false
+			}
+			top := ev.Run(fn, nil)
+			big := 0
+			eng.WalkReached(top, func(act *eng.CEResult, in ssa.Instruction) {
+				if c, ok := in.(ssa.CallInstruction); ok {
+					if o := eng.CalleeObj(c); o != nil && o.Pkg() != nil && o.Pkg().Path() == "math/big" {
+						big++
 					}
 				}
+			})
+			if k <= 1 {
+				if got, ok := top.Ret.Int(); !ok || got != k || big > 0 {
+					bad = fmt.Sprintf("with the filter answering %d OrientationIndex returns %s and reaches %d math/big calls: a safe filter answer must be returned as it is", k, top.Ret, big)
+				}
+			} else if big == 0 {
+				bad = fmt.Sprintf("with the filter answering %d (cannot decide) the exact arithmetic is not reached", k)
 			}
 		}
-		r.Check(ok, r3, "bigxy.OrientationIndex/filter-cutoff", p.Pos(fn.Pos()), true, "filter answers <= 1 are returned, anything else goes to the exact path", "OrientationIndex does not return exactly the filter answers <= 1")
+		r.Check(bad == "", r3, "bigxy.OrientationIndex/filter-cutoff", p.Pos(fn.Pos()), true, "filter answers <= 1 are returned, anything else goes to the exact path", bad)
 	}
 
 	const r4 = "delegation"
@@ -317,4 +352,51 @@ func filterStructure(p *core.Program, r *core.Report, rule string, fn *ssa.Funct
 func isNeg(v, of ssa.Value) bool {
 	u, ok := v.(*ssa.UnOp)
 	return ok && u.Op == token.SUB && u.X == of
+}
+
+// sameArgs3: the call passes the caller's three coordinate parameters in order.
+func sameArgs3(c ssa.CallInstruction, fn *ssa.Function) bool {
+	a := c.Common().Args
+	if len(a) != len(fn.Params) {
+		return false
+	}
+	for i := range a {
+		if a[i] != ssa.Value(fn.Params[i]) {
+			return false
+		}
+	}
+	return true
+}
+
+// exactSignRule (C10): the sign of the exact determinant is read off the big.Float itself. A conversion to float64
+// (or any other narrower number) before the sign is taken rounds: a non-zero determinant below the smallest
+// subnormal becomes 0 and three non-collinear points are reported collinear.
+func exactSignRule(p *core.Program, r *core.Report, rule string, exact *ssa.Function) {
+	r.Rule(rule, "in the exact path of bigxy.OrientationIndex (the function holding the math/big arithmetic and the helpers of the package it calls) no *big.Float is converted to a machine number or text (Float64, Float32, Int64, Uint64, Int, Rat, Text, String, Append, Format, MantExp): the orientation is decided by (*big.Float).Sign or Cmp of the exact value", 1)
+	seen := map[*ssa.Function]bool{}
+	var conv []string
+	sign := 0
+	var scan func(f *ssa.Function, depth int)
+	scan = func(f *ssa.Function, depth int) {
+		if f == nil || seen[f] || depth > 3 || len(f.Blocks) == 0 {
+			return
+		}
+		seen[f] = true
+		for _, c := range eng.Calls(f) {
+			o := eng.CalleeObj(c)
+			if o != nil && o.Pkg() != nil && o.Pkg().Path() == "math/big" {
+				switch o.Name() {
+				case "Float64", "Float32", "Int64", "Uint64", "Int", "Rat", "Text", "String", "Append", "Format", "MantExp":
+					conv = append(conv, o.Name()+" at "+p.Pos(c.Pos()))
+				case "Sign", "Cmp":
+					sign++
+				}
+			}
+			if h := eng.StaticCallee(c); h != nil && h.Pkg == exact.Pkg && h.Name() != "orientationIndexFilter" {
+				scan(h, depth+1)
+			}
+		}
+	}
+	scan(exact, 0)
+	r.Check(len(conv) == 0 && sign >= 1, rule, short(exact), p.Pos(exact.Pos()), true, fmt.Sprintf("sign taken by %d Sign/Cmp call(s), no narrowing conversion", sign), fmt.Sprintf("the exact determinant is narrowed by %v (Sign/Cmp calls: %d): a tiny non-zero determinant rounds to zero and reads as collinear", conv, sign))
 }
